@@ -759,9 +759,12 @@ func main() {
 			}
 		}
 	}
-	deadline, wait := 60, 700
+	// the bounded wait only has to separate "comes back" from "never comes back": generous, so
+	// that a loaded machine cannot turn a slow handler into a hanging one (it costs time only
+	// when something does hang); everything else is compared as counts, never as durations
+	deadline, wait := 60, 8000
 	if o.Tier == "thorough" {
-		deadline, wait = 100, 2000
+		deadline, wait = 100, 12000
 	}
 	facts := idleTimeoutFact()
 	realDeadlineMs := 30000
@@ -813,7 +816,7 @@ func main() {
 			if in.Real {
 				sp.DeadlineMs, sp.WaitMs = realDeadlineMs, 3*realDeadlineMs
 			}
-			sp.WaitMs += in.Waits * (passiveMs + 2000)
+			sp.WaitMs += in.Waits * (passiveMs + 15000)
 			if in.Conn.Room != nil {
 				// one write deadline per reply at most: replies <= lines + segments (+ banner ...)
 				k := 6 + len(in.Conn.Segs)
@@ -822,9 +825,14 @@ func main() {
 				}
 				sp.WaitMs += k * 2 * sp.DeadlineMs
 			}
-			sp.SettleMs = passiveMs + 1500
+			sp.SettleMs = passiveMs + 6000
 			if in.Sweep != nil && in.Slow {
-				sp.WaitMs += passiveMs + 3000
+				sp.WaitMs += passiveMs + 15000
+			}
+			if in.Sweep != nil && (strings.HasPrefix(in.Sweep.Svc, "ftp-data") || (in.Sweep.Svc == "ssh-simulator" && in.Sweep.Scenario != 2)) {
+				// interactive clients over a pipe: the idle deadline must not bite between two
+				// messages of a live dialogue on a loaded machine
+				sp.DeadlineMs = 3000
 			}
 			t0 := time.Now()
 			res, crash := runChild(sp, scratch, i)
